@@ -75,6 +75,7 @@ def run(chk: Check):
     traces = []
     alpha = D.alphabet(1, 4, 4)
     traces += D.prefix_times_alphabet(rng, alpha)
+    traces += D.rejected_then_valid()
     if chk.quick:
         traces += D.all_sequences(D.alphabet(1, 2, 2), 2)
         traces += D.random_histories(rng, 600)
